@@ -147,6 +147,13 @@ def classifiers(defs: dict, status: dict):
 
 
 def _conds(test) -> list:
+    try:
+        return _conds_unchecked(test)
+    except (ValueError, SyntaxError, TypeError) as e:      # literal_eval on something that is not a literal
+        raise Unavailable(f"classifier condition outside the grammar ({type(e).__name__})") from None
+
+
+def _conds_unchecked(test) -> list:
     parts = test.values if isinstance(test, ast.BoolOp) and isinstance(test.op, ast.And) else [test]
     conds = []
     for p in parts:
@@ -175,17 +182,42 @@ def _conds(test) -> list:
     return conds
 
 
+GROUPS = (("camel", lambda d, s: camelback(d, s)), ("lj", lambda d, s: lennard_jones(d, s)),
+          ("gupta", lambda d, s: gupta(d, s)), ("fd", lambda d, s: finite_differences(d, s)),
+          ("classifiers", lambda d, s: classifiers(d, s)))
+FALLBACK = __import__("pathlib").Path(__file__).with_name("surfaces_fallback.json")
+
+
+def snapshot() -> dict:
+    """the definitions read from the tree the fingerprints were taken from (written by `python -m translate.surfaces
+    --update-fallback`).  When a group of kernels leaves the grammar its definitions are taken from here, so that the
+    Lean files and the driver still compile and the correspondence still compares the implementation with the LAST
+    VERIFIED transcription; the group's status says `unavailable`, which check.py treats as a broken tie."""
+    defs: dict = {}
+    for _, f in GROUPS:
+        f(defs, {})
+    return {k: list(v) for k, v in defs.items()}
+
+
 def regenerate() -> tuple[dict, dict]:
+    import json
     defs: dict = {}
     status: dict = {}
     exprs: dict = {}
-    for name, f in (("camel", camelback), ("lj", lennard_jones), ("gupta", gupta), ("fd", finite_differences),
-                    ("classifiers", classifiers)):
+    fallback = json.loads(FALLBACK.read_text()) if FALLBACK.exists() else {}
+    for name, f in GROUPS:
+        part: dict = {}
         try:
-            exprs[name] = f(defs, status)
+            exprs[name] = f(part, status)
+            defs.update(part)
         except Unavailable as e:
             status[f"Surfaces.{name}"] = f"unavailable ({e}); correspondence is the only tie"
             exprs[name] = None
+    missing = [k for k in fallback if k not in defs]
+    for k in missing:
+        defs[k] = (fallback[k][0], "-- kernel unavailable: last verified transcription\n  " + fallback[k][1])
+    if missing:
+        status["Surfaces.fallback_definitions"] = missing
     lines = ["-- REGENERATED on every run by harness/translate/surfaces.py from the current source of",
              "-- potentials/test_functions.py, potentials/atomic.py, potentials/potential.py (do not edit)",
              "import TopSearch.Py.Expr", "import TopSearch.Model.Surfaces",
@@ -195,3 +227,11 @@ def regenerate() -> tuple[dict, dict]:
     lines.append("end TopSearch.Gen.Surfaces")
     status["Gen/Surfaces.lean rewritten"] = write_if_changed("Surfaces.lean", "\n".join(lines) + "\n")
     return status, exprs
+
+
+if __name__ == "__main__":
+    import json
+    import sys
+    if "--update-fallback" in sys.argv:
+        FALLBACK.write_text(json.dumps(snapshot(), indent=0))
+        print(f"{FALLBACK.name}: {len(json.loads(FALLBACK.read_text()))} definitions")
